@@ -48,6 +48,13 @@ DEFS_A = {
         "left": {"$ref": "#/definitions/RecN", "default": {}},
         "right": {"$ref": "#/definitions/RecN", "default": {}},
         "v": {"type": "integer"}}},
+    # renamed members (hyphen, keyword, leading digit) next to a flattened typed-additionalProperties member
+    "Headers": {"type": "object", "properties": {"content-type": {"type": "string"}, "type": {"type": "string"},
+                                                 "1st": {"type": "string"}, "plain": {"type": "string"}},
+                "additionalProperties": {"type": "string"}},
+    "HeadersI": {"type": "object", "properties": {"content-type": {"type": "string"}, "type": {"type": "string"},
+                                                  "plain": {"type": "string"}},
+                 "required": ["type"], "additionalProperties": {"type": "integer"}},
     "Closed": {"type": "object", "properties": {"a": {"type": "string"}}, "additionalProperties": False},
     "WithExtra": {"type": "object", "properties": {"k": {"type": "integer"}}, "required": ["k"],
                   "additionalProperties": {"type": "string"}},
@@ -113,6 +120,8 @@ DEFS_B = {
         {"type": "object", "properties": {"shape": {"type": "string", "enum": ["rect"]},
                                           "w": {"type": "integer"}, "h": {"type": "integer"}},
          "required": ["shape", "w", "h"]}]},
+    "HeadersU": {"type": "object", "properties": {"content-type": {"type": "string"}, "\u00e9t\u00e9": {"type": "string"}},
+                 "additionalProperties": {"type": "string"}},
     "KeyedMap": {"type": "object", "additionalProperties": {"type": "boolean"},
                  "propertyNames": {"type": "string", "pattern": "^[a-z]+$"}},
     "Alias": {"$ref": "#/definitions/Inner"},
@@ -396,6 +405,8 @@ def canon_tokens(toks):
         elif k == "p" and t == "-" and i + 1 < n and toks[i + 1][0] == "l" and canon_num("-" + toks[i + 1][1]):
             out.append(canon_num("-" + toks[i + 1][1]))
             i += 1
+        elif k == "i":
+            out.append(show_ustr(t)[1:-1] if any(ord(ch) > 127 for ch in t) else t)   # as Value.show_ident
         else:
             out.append(t)
         i += 1
@@ -651,7 +662,23 @@ KINDS.update({
                 [c * 2 for c in WIDTHS] + [c * 4 for c in WIDTHS], [c for c in WIDTHS] + [c * 5 for c in WIDTHS]),
 })
 NO_EXEC = ("rec_",)          # kinds whose generated code is compiled but never executed
-ALWAYS_FULL = ("len_", "rec_")      # kinds run exhaustively in every tier
+# struct-valued defaults on structs with RENAMED members and a FLATTENED typed-additionalProperties member: the leftover
+# keys handed to `extra` must be exactly the keys that are not serialized names of direct members.  Defaults containing
+# the renamed member, extra keys, both, neither; same / different value type of the flattened map; all tiers, all
+# positions, with and without the builder
+KINDS.update({
+    "renflat_same": (R("Headers"),
+                     [{"content-type": "text/plain"}, {"x-extra": "1"}, {"content-type": "text/plain", "x-extra": "1"},
+                      {}, {"type": "t", "1st": "f", "plain": "p", "zz": "q"}],
+                     [{"content-type": 5}, {"x-extra": 1}]),
+    "renflat_diff": (R("HeadersI"),
+                     [{"type": "t"}, {"type": "t", "content-type": "text/plain"}, {"type": "t", "n": 1},
+                      {"type": "t", "content-type": "text/plain", "n": 1, "m": 2}],
+                     [{"type": "t", "n": "x"}, {"content-type": "text/plain"}]),
+    "renflat_unicode": (R("HeadersU"),
+                        [{"content-type": "a", "\u00e9t\u00e9": "b", "x": "c"}, {"\u00e9t\u00e9": "b"}], [{"\u00e9t\u00e9": 1}]),
+})
+ALWAYS_FULL = ("len_", "rec_", "renflat_")      # kinds run exhaustively in every tier
 EXPECT_ACCEPT = ("len_",)    # kinds whose VALID defaults must be accepted and honoured (a rejection is reported)
 
 ALL_DEFS = dict(DEFS_A)
@@ -767,6 +794,25 @@ def validate_batch(pairs):
     return [o.get("ok") for o in out]
 
 
+def dup_keys(text):
+    """object keys that occur twice in a JSON text (serde writes a flattened map after the named members: a key that is
+    handed to both is serialised twice; serde_json::Value hides it)"""
+    dups = []
+
+    def hook(pairs):
+        seen = set()
+        for k, _ in pairs:
+            if k in seen:
+                dups.append(k)
+            seen.add(k)
+        return dict(pairs)
+    try:
+        json.loads(text, object_pairs_hook=hook)
+    except (ValueError, TypeError):
+        return []
+    return dups
+
+
 def is_empty(v):
     return v is None or v == [] or v == {}
 
@@ -826,7 +872,8 @@ def k5_cases(ctx):
             else:
                 pick_v, pick_i = vs, ivs
             for d in pick_v:
-                cases.append(k5_case(kind, pos, d, builder=(pos == "inline" and rnd.random() < (0.3 if quick else 0.5))))
+                bld = pos == "inline" and (kind.startswith("renflat_") or rnd.random() < (0.3 if quick else 0.5))
+                cases.append(k5_case(kind, pos, d, builder=bld))
             for d in pick_i:
                 cases.append(k5_case(kind, pos, d))
     return cases
@@ -907,6 +954,12 @@ def run_k5(ctx, cases, name=None):
             rec["viol"].append({"kind": "render-panic" if rec["render"] == "render-panic" else "render-" + str(rec["render"]),
                                 "msg": g.get("render", {}).get("msg", "")[:160]})
             continue
+        if MUT == "impl-flatten-by-ident" and m["kind"] == "renflat_diff" and valid[i] and add == "ok" and \
+                isinstance(m["default"], dict) and "content-type" in m["default"]:
+            # emulation: the renamed key is also handed to the integer-valued flattened map, which does not render:
+            # the `extra` field is dropped from the struct literal
+            rec["viol"].append({"kind": "uncompilable", "errors": [["E0063", "missing field `extra` in initializer (emulated)"]]})
+            continue
         if MUT == "impl-tuple1-uncompilable" and m["kind"] == "tuple1" and valid[i] and add == "ok":
             # emulation: the recorded implementation answer of the FIXED class F2 comes back
             rec["viol"].append({"kind": "uncompilable", "errors": [["E0308", "mismatched types (emulated)"]]})
@@ -943,6 +996,12 @@ def run_k5(ctx, cases, name=None):
                 rec["viol"].append({"kind": "runtime-error", "where": r["what"], "observed": a})
                 continue
             val = a["ok"]
+            dk = dup_keys(a.get("text"))
+            if MUT == "impl-flatten-by-ident" and m["kind"] == "renflat_same" and isinstance(m["default"], dict) and \
+                    any(k in m["default"] for k in ("content-type", "type", "1st")):
+                dk = [k for k in ("content-type", "type", "1st") if k in m["default"]]   # emulated recorded answer
+            if dk:
+                rec["viol"].append({"kind": "duplicate-key", "where": r["what"], "keys": dk, "text": (a.get("text") or "")[:200]})
             if m["pos"] == "type":
                 real = val
             else:
@@ -1087,6 +1146,7 @@ THEOREMS = [
     "C06_default_exact_partial",
     "C06_default_exact_structural",
     "C06_check_defaults_covers_members",
+    "C06_flatten_remainder_excludes_wire_names",
     "C06_regression_examples",
 ]
 CORPUS = os.path.join(vlib.ROOT, "corpus", "C06", "witnesses.json")
